@@ -1,8 +1,35 @@
 """C12 Builder calls never panic, failed calls change nothing, structure is enforced."""
+import os
 from .bcommon import *
+
+def extras(tier, seed):
+    """Specification growth beyond the listed properties (BuilderExtraTrace.tla): never a verdict."""
+    import json
+    trace = os.path.join(BUILD, "c12_extra.ndjson")
+    vh(["drive-builder-extra", "--n", "150" if tier == "quick" else "3000", "--seed", str(seed), "--out", trace])
+    n, bad, dt = tlc_trace("BuilderExtraTrace.tla", "BuilderExtraTrace.cfg", trace, "c12_extra")
+    if bad:
+        ev = read_trace(trace)
+        for idx, code in bad[:5]:
+            log("EXTRA-OBSERVATION (not a property verdict): %s rejected by BuilderExtraTrace: %s" % (ev[idx - 1].get("what"), json.dumps(ev[idx - 1])[:300]))
+    path = os.path.join(EVIDENCE, "C12.json")
+    e = json.load(open(path))
+    e["coverage"]["extra_behaviours"] = {"spec": "spec/BuilderExtraTrace.tla", "behaviours": ["select_function_by_name", "find_return_block_indices", "insert_types_global_values", "dedup_insert_type", "version/set_version"],
+                                         "events_validated": n, "rejected": len(bad), "note": "beyond the listed properties; reported, never a verdict"}
+    json.dump(e, open(path, "w"), indent=1)
+
 
 def run_check(tier, seed, replay=None):
     q = tier == "quick"
+    rc = _run(tier, seed, replay, q)
+    try:
+        extras(tier, seed)
+    except ToolError as e:
+        log("extras skipped: %s" % str(e)[:200])
+    return rc
+
+
+def _run(tier, seed, replay, q):
     return builder_check("C12", tier, seed, replay, B_STRUCT | B_PANIC,
         model=("MC_Builder_%s_inv.cfg" % tier, "MC_Builder_%s_emit.cfg" % tier, 120 if q else 8),
         suites=[("model", "histories", [], True),
